@@ -27,10 +27,10 @@ DRIVER = "drv_C19"
 REQUIRED_THEOREMS = [
     "Acn.C19.place_unique", "Acn.C19.no_wait_while_free", "Acn.C19.fifo_admission",
     "Acn.C19.waiting_iff_station_none", "Acn.C19.no_error", "Acn.C19.never_charged_counts",
-    "Acn.C19.all_gone_at_end", "Acn.C19.stale_unplug_noop", "Acn.C19.deterministic_given_choices",
+    "Acn.C19.all_gone_at_end", "Acn.C19.stale_unplug_noop", "Acn.C19.deterministic_given_choices_partial",
     "Acn.C19.wellFormed_protocol",
 ]
-BUDGET = {"quick": 2500, "thorough": 30000, "search": 12000}
+BUDGET = {"quick": 2500, "thorough": 15000, "search": 12000}
 TRUSTED = ["heapq: get_current_events returns the due events in (timestamp, precedence) order; the order "
            "among equal keys is taken from the implementation's own event_history",
            "random.choice(seq) returns an element of seq (its index is the model's input)",
